@@ -1,6 +1,6 @@
 # Harness build. Variants: asan (single-threaded engines), tsan (threadsim).
 REPO ?= /repo
-B := /verif/build
+B ?= /verif/build
 CXX := clang++
 COMMON := -std=c++17 -O1 -g -fno-omit-frame-pointer -Wall -Wno-unused-function -Wno-overloaded-virtual -DXERCES_VERIF_HOOKS -MMD -MP
 ASAN := -fsanitize=address,undefined -fno-sanitize-recover=undefined -fno-sanitize=vptr,nonnull-attribute
